@@ -24,7 +24,7 @@ RULE = (
     "configured-feasible(x) => handed-feasible(x) => feasible w.r.t. bounds, non-linear constraints and every linear row that "
     "does not touch a fixed variable (plus, per constraint row and bound, points 2^-12 inside/outside/on the bound and in the "
     "middle of two-sided bands, incl. a band that is narrow relative to its magnitude); each dict jac == exact difference quotient of its own fun; with parallel evaluation the vectorized constraint object handed to differential_evolution returns, for a block of members, column by column the values of the single members; max_iterations reaches the "
-    "back-end for every options form; NotImplementedError is an acceptable answer, silently handing a non-equivalent "
+    "back-end for every options form; The same optimizer object is then started a second time from another point (other values of the fixed variables) and the lattice oracle is repeated on what is handed over then. NotImplementedError is an acceptable answer, silently handing a non-equivalent "
     "problem is not. Every accepted configuration is non-trivial; rejected ones are counted trivial."
 )
 ASSUMPTIONS = [
@@ -44,7 +44,9 @@ V = 3
 X0 = np.array([1.0, 0.0, 2.0])
 NL_COEF = np.array([[1.0, -1.0, 2.0], [2.0, 1.0, 0.0], [0.0, -1.0, 1.0]])
 NL_OFF = np.array([0.0, -1.0, 1.0])
-LIN_COEF = np.array([[1.0, 1.0, 0.0], [0.0, 2.0, -1.0], [1.0, 0.0, 0.0]])
+# (row 1: with variables 0 and 2 fixed its coefficients on the fixed variables are non-zero but cancel in the sum)
+LIN_COEF = np.array([[1.0, 1.0, 0.0], [1.0, 2.0, -1.0], [1.0, 0.0, 0.0]])
+X1 = np.array([0.0, 1.0, 3.0])  # start point of the second start() (differs from X0 in every entry)
 
 
 def kind_bounds(kind: str, idx: int) -> tuple[float, float]:
@@ -150,8 +152,10 @@ def judge(case: dict[str, Any]) -> Judgement:
     n_nl = len(case["nl"])
     calls = {"n": 0}
 
+    start_ref = {"x": X0}
+
     def full(x_free: np.ndarray) -> np.ndarray:
-        x = X0.copy()
+        x = start_ref["x"].copy()
         x[mask] = x_free
         return x
 
@@ -358,6 +362,38 @@ def judge(case: dict[str, Any]) -> Judgement:
         for key, value in user_opts.items():
             if (handed.get("options") or {}).get(key) != value:
                 j.fail("user-option-not-handed", key=key)
+    # ---------------------------------------------------------------- a second start() of the SAME optimizer object
+    # from another point (other values of the fixed variables): what is handed over then is equivalent to the configured
+    # problem at THAT point, and nothing computed in the first run is served again
+    if not j.violations:
+        first_constraints, first_bounds = constraints, (h_lb, h_ub)
+        start_ref["x"] = X1
+        with capture() as box2:
+            try:
+                optimizer.start(X1.copy())
+            except Exception as exc:  # noqa: BLE001
+                j.fail(f"second-start-raised:{type(exc).__name__}", message=str(exc)[:200])
+        handed2 = box2.get("minimize") or box2.get("de")
+        if handed2 is not None and not j.violations:
+            constraints = handed2.get("constraints") or []
+            if not isinstance(constraints, (list, tuple)):
+                constraints = [constraints]
+            if not np.array_equal(np.asarray(handed2["x0"]), X1[mask]):
+                j.fail("second-start:x0-not-free-variables", observed=handed2["x0"], expected=X1[mask])
+            for x in lattice(d):
+                try:
+                    h = handed_feasible(x)
+                except Exception as exc:  # noqa: BLE001
+                    j.fail(f"second-start:handed-constraint-raised:{type(exc).__name__}", message=str(exc)[:200])
+                    break
+                if cfg_feasible(x, all_rows=True) and not h:
+                    j.fail("second-start:configured-feasible-point-rejected-by-handed-problem", x=x, nl=case["nl"], lin=case["lin"], mask=case["mask"])
+                    break
+                if h and not cfg_feasible(x, all_rows=False):
+                    j.fail("second-start:handed-problem-accepts-configured-infeasible-point", x=x, nl=case["nl"], lin=case["lin"], mask=case["mask"])
+                    break
+        constraints, (h_lb, h_ub) = first_constraints, first_bounds
+        start_ref["x"] = X0
     j.transitions = calls["n"] + 1
     j.outcome = f"{method}:accepted:feasible={'some' if n_feasible else 'none'}:mask={case['mask']}"
     return j
